@@ -105,10 +105,32 @@ def discharge_local(F, fn, site, o, lin, facts_cache):
         # and for every variant the two matches, taken consistently, do not lead here (`A | B => match x { A => .., B => ..,
         # C => unreachable!() }`)
         by_src = {}
+
+        def canon(src):
+            """the place a scrutinee is a plain copy of / a shared reference to (`kind => match kind {..}` re-reads def.kind)"""
+            l0, p0 = src["l"], list(src["p"])
+            for _ in range(3):
+                if p0 and p0 != ["*"]:
+                    break
+                defs = [rv for bb, j, pl, rv, m in fn.assigns() if pl["l"] == l0 and not pl["p"]]
+                if len(defs) != 1 or [1 for bb, tt in fn.calls() if tt["dest"]["l"] == l0]:
+                    break
+                rv = defs[0]
+                if rv["k"] == "use" and not p0 and op_place(rv["ops"][0]) is not None:
+                    q = op_place(rv["ops"][0])
+                    l0, p0 = q["l"], list(q["p"])
+                elif rv["k"] == "ref" and not rv.get("mut") and p0 == ["*"]:
+                    l0, p0 = rv["place"]["l"], list(rv["place"]["p"])
+                else:
+                    break
+            return l0, json.dumps(p0)
+        switch_src = {}
         for sb in range(len(fn.blocks)):
             st = fn.term(sb)
             if st["k"] == "switch" and st.get("enum") and "src" in st and not fn.is_cleanup(sb):
-                by_src.setdefault((st["enum"], st["src"]["l"], json.dumps(st["src"]["p"])), []).append(sb)
+                cl, cp = canon(st["src"])
+                switch_src[sb] = (cl, cp)
+                by_src.setdefault((st["enum"], cl, cp), []).append(sb)
         for (enum_, l_, pj), sws in by_src.items():
             if len(sws) < 2:
                 continue
@@ -123,7 +145,7 @@ def discharge_local(F, fn, site, o, lin, facts_cache):
             stable_local = len(whole) + len(call_dests) <= 1 and not partial and not mut_borrowed and not (proj and proj[0] == "*")
             if (proj and proj[0] == "*" and l_ <= fn.nargs and fn.local_ty(l_).startswith("&") and not fn.local_ty(l_).startswith("&mut")) or \
                     stable_local:
-                same = lambda e, src, bb2: e == enum_ and src["l"] == l_ and json.dumps(src["p"]) == pj
+                same = lambda e, src, bb2: e == enum_ and switch_src.get(bb2) == (l_, pj)
                 allv = fn.term(sws[0]).get("all_variants") or []
                 if allv and all(b not in variants.reach_multi(F, fn, 0, {enum_: v}, scrutinee_ok=same) for v in allv):
                     return "infeasible-arm", "no variant of %s reaches this arm when the matches on the same value are taken consistently" % enum_.split("::")[-1]
@@ -680,6 +702,8 @@ def r83(F):
                 for c in a.get("promoted") or ():
                     if c.get("agg") == "ucglib::ast::TokenType" and c.get("variant") == "END":
                         users.append(name)
+    from .. import flatten as _fl
+    users = [_fl.home(F, u, {"ucglib::parse::parse"}) for u in users]      # a piece split off parse() is parse()
     ok = set(users) <= {"ucglib::parse::parse"}
     r.inst("END-never-consumed", "src/parse", ok, "TokenType::END is only inspected by parse() to stop" if ok else "grammar rules match END: %s" % sorted(set(users)))
     tz = F.fn("ucglib::tokenizer::tokenize")
